@@ -14,12 +14,13 @@
 (*           of Valid / Normal themselves.                                 *)
 (***************************************************************************)
 EXTENDS GeomValidate, TLC, Json
-CONSTANTS Tier               \* "quick" | "thorough"
+CONSTANTS Tier               \* "quick" | "thorough" | "cov" (a small sub-universe of both, run with -coverage: every action is taken)
 VARIABLES kind, toks, pc, val, why, bud
 vars == <<kind, toks, pc, val, why, bud>>
 
 F  == FMAXHZ
 Thorough == Tier = "thorough"
+Cov      == Tier = "cov"
 Alpha    == IF Thorough THEN {-1, 0, 1, 2, 3, F, F + 1} ELSE {-1, 0, 1, 2, F, F + 1}
 BadVals  == {-1, 0, F, F + 1}             \* what a single scalar is replaced by (two stay in range: the boundaries)
 Alpha5   == {-1, 0, 2, F + 1}              \* thorough: lists of length 5 (one too many for a box) over a smaller alphabet
@@ -82,9 +83,12 @@ PointCases    == {K(k, L(ps)) : k \in {"LineString", "MultiPoint"}, ps \in Point
 SkelCases     == Skeletons
 CrossCases    == {K(k, sk.toks) : k \in Kinds, sk \in Skeletons}
 Edits1(s)     == {x \in Edits(s) : Len(x) >= 1}
-BaseCases     == FlatCases \cup ScalarCases \cup NestCases \cup PointCases \cup SkelCases \cup CrossCases
+BaseCases     == IF Cov THEN ScalarCases \cup SkelCases \cup CrossCases
+                 ELSE FlatCases \cup ScalarCases \cup NestCases \cup PointCases \cup SkelCases \cup CrossCases
 \* number of successive single-position faults applied to a base case (skeletons only)
-Budget(c)     == IF c \notin Skeletons THEN 0 ELSE IF Thorough /\ c \in SmallSkeletons THEN 2 ELSE 1
+Budget(c)     == IF c \notin Skeletons THEN 0
+                 ELSE IF Cov THEN (IF c.kind \in {"Point", "LineString", "MultiLineString"} THEN 1 ELSE 0)
+                 ELSE IF Thorough /\ c \in SmallSkeletons THEN 2 ELSE 1
 
 (* ---- the machine: generation by edits, then Impl, one action per layer of the validator chain ---- *)
 Init == /\ \E c \in BaseCases : kind = c.kind /\ toks = c.toks /\ bud = Budget(c)
